@@ -50,6 +50,12 @@ def generate(seed, tier, ncases=None):
         cases.append(c)
     for i in range(n_steps):
         cases.append(gen_steps_case(lib.rng_for(seed, ID, 500000 + i)))
+    # small hetero rings in several writings with chain-pattern configurations (see c05.gen_ring_cases): the answer must
+    # not depend on the writing-induced adjacency order beyond what the model says
+    for i in range(max(2, n // 9)):
+        for c in c05.gen_ring_cases(lib.rng_for(seed, ID, 600000 + i), k=2):
+            c["history"] = []
+            cases.append(c)
     attach_seed_answers(cases, fc.SEEDS if tier == "quick" else fc.SEEDS + ["11", "12345", "random"])
     for c in cases:
         yield c
